@@ -29,12 +29,13 @@ from collections import Counter, defaultdict
 from concurrent.futures import ThreadPoolExecutor
 from pathlib import Path
 
-from . import common, c05, c05_corpus, c10
+from . import common, c05, c05_corpus, c10, c06_audit, c06_ties
 from .common import glist, gbool
 
 PID = "C06"
 CHILD = Path(__file__).resolve().parent / "c06_child.py"
 PYTHON = sys.executable
+ALLOW_LIST = common.VERIF / "corpus" / "c06" / "set_order_sites.json"
 
 
 # ------------------------------------------------------------------------------------------------
@@ -204,6 +205,28 @@ def g_files_case(case, log_batches, ret) -> str:
 
 
 # ------------------------------------------------------------------------------------------------
+# 2b. the list model of max / min with a key (PickModel.argmax / argmin) vs CPython
+
+
+def pick_cases(rnd):
+    """every list of up to 3 (identity, key) pairs over 3 identities x 2 keys (259, exhaustive: all tie patterns and
+    all iteration orders of them), plus seeded longer ones"""
+    elems = [(i, k) for i in range(3) for k in range(2)]
+    lists = [list(c) for n in range(4) for c in itertools.product(elems, repeat=n)]
+    for _ in range(140):
+        lists.append([(rnd.randint(0, 9), rnd.randint(-2, 3)) for _ in range(rnd.randint(4, 9))])
+    return lists
+
+
+def g_pick_case(l) -> str:
+    pair = lambda p: f"({p[0]}, {p[1]})"          # noqa
+    opt = lambda p: "None" if p is None else f"(Some {pair(p)})"          # noqa
+    mx = max(l, key=lambda p: p[1]) if l else None          # CPython: the reference
+    mn = min(l, key=lambda p: p[1]) if l else None
+    return f"({glist(l, pair)}, {opt(mx)}, {opt(mn)})"
+
+
+# ------------------------------------------------------------------------------------------------
 # 3. direct runs
 
 
@@ -286,8 +309,17 @@ EXPLICIT_RULE_OPS = [
 ]
 
 
+def tie_modules():
+    return [src for _, src in c06_ties.ties()]
+
+
+def explicit_rule_ops():
+    return EXPLICIT_RULE_OPS + c06_ties.rule_ties()
+
+
 def explicit_modules():
-    return explicit_family() + [op[1] for op in EXPLICIT_RULE_OPS] + folding_family()
+    # the tie family first: its minimal witnesses (round 5, seed C06-d) run before everything else
+    return tie_modules() + explicit_family() + [op[1] for op in EXPLICIT_RULE_OPS] + folding_family()
 
 
 # constant folding of values that are not constants of the program (hunt C06-0..2; site core.literal_value, owner c15h):
@@ -577,16 +609,18 @@ def _check(run, wd, mods, farm, t_start):
         seeds = [0, 1, 2, 3]
     else:
         fsrc_used, gen_used, seeds = fsrc, gen, list(range(12))
-    gen_used = gen_used + [m for m in explicit_modules() if m not in gen_used]
-    fmt_inputs = fsrc_used + gen_used
-    rules += [[q, src, c05.enc(tuple(a)), c05.enc(dict(k))] for (q, src, a, k) in EXPLICIT_RULE_OPS]
+    gen_used = explicit_modules() + [m for m in gen_used if m not in explicit_modules()]
+    fmt_inputs = gen_used + fsrc_used
+    ties = tie_modules()
+    tie_index = [fmt_inputs.index(m) for m in ties]
+    rules = [[q, src, c05.enc(tuple(a)), c05.enc(dict(k))] for (q, src, a, k) in explicit_rule_ops()] + rules
     code_job = {"repo": str(common.REPO), "mode": "code", "format": fmt_inputs, "rules": rules}
     ex = ThreadPoolExecutor(max_workers=8)
     rule_seeds = [s for s in (range(8) if quick else range(24)) if s not in seeds]     # rules only: cheap
     code_futs = {s: ex.submit(spawn_child, wd, f"code{s}", dict(code_job, junk=[0, 1000, 50000, 7, 333, 90000][s % 6] + s), s)
                  for s in seeds}
     for s in rule_seeds:
-        code_futs[s] = ex.submit(spawn_child, wd, f"code{s}", dict(code_job, format=[], junk=977 * s), s)
+        code_futs[s] = ex.submit(spawn_child, wd, f"code{s}", dict(code_job, format=ties, junk=977 * s), s)
     timing["harvest_s"] = round(time.time() - t0, 1)
 
     # ---- real format_files on generated trees, and package batches (children, background)
@@ -733,6 +767,14 @@ def _check(run, wd, mods, farm, t_start):
                      "Eval vm_compute in (bad_idx files_case_ok cases).\n")
         files_v.append(p)
         shards.append(("files", fitems[k:k + SH]))
+    pcases = pick_cases(rnd)
+    p = wd / "pick_0.v"
+    p.write_text("From Coq Require Import List ZArith Bool.\nImport ListNotations.\n"
+                 "Require Import Pyrefact.Base Pyrefact.PickModel.\nOpen Scope Z_scope.\n"
+                 "Definition cases : list pick_case := [\n " + ";\n ".join(g_pick_case(l) for l in pcases) + "\n].\n"
+                 "Eval vm_compute in (bad_idx pick_case_ok cases).\n")
+    files_v.append(p)
+    shards.append(("pick", pcases))
     timing["format_files_impl_s"] = round(time.time() - t0, 1)
 
     t0 = time.time()
@@ -756,7 +798,7 @@ def _check(run, wd, mods, farm, t_start):
         pops = pops[::2]              # fixed stride (seed-independent); the children run all of them
     pops += [("format", s, "default") for s in (gen_used if quick else gen)]
     explicit = [("format", s, "default") for s in explicit_modules()]
-    explicit += [("rule", q, src, tuple(a), dict(k)) for (q, src, a, k) in EXPLICIT_RULE_OPS]
+    explicit += [("rule", q, src, tuple(a), dict(k)) for (q, src, a, k) in explicit_rule_ops()]
     explicit += [("rule", "abstractions.overused_constant", s, (), {"root_is_static": True}) for s in explicit_family()]
     explicit += [("rule", "symbolic_math.simplify_constrained_range", s, (), {}) for s in explicit_family()[-1:]]
     CH = 60
@@ -827,7 +869,9 @@ def _check(run, wd, mods, farm, t_start):
             o = code_out[s]
             if "error" in o:
                 continue
-            for i, (a, b) in enumerate(zip(ref["format"], o["format"])):
+            fidx = list(range(len(fmt_inputs))) if s in seeds else tie_index       # rule-only children: the tie family
+            for i, b in zip(fidx, o["format"]):
+                a = ref["format"][i]
                 n_code += 1
                 if a != b:
                     failures.append(("hashseed-dependent-result",
@@ -957,6 +1001,21 @@ def _check(run, wd, mods, farm, t_start):
         else:
             common.log(f"note: known finding {f.id} no longer reproduces")
 
+    # ---- 4. static audit of order-sensitive consumers of hash-ordered collections (fail-closed; allow-list in the corpus)
+    t0 = time.time()
+    audit_new, audit_stale, audit_errors, audit_keyed, _ = c06_audit.compare(Path(common.REPO) / "pyrefact", ALLOW_LIST)
+    audit_unexhibited = []
+    for site in audit_new:
+        q = f"{site['module']}.{site['function']}"
+        hit = [p for k, p in failures if p.get("site") == q]
+        if hit:
+            hit[0].setdefault("audit_sites", []).append(site)          # the tie family exhibits it: that is the witness
+        else:
+            audit_unexhibited.append(site)
+    timing["audit_s"] = round(time.time() - t0, 1)
+    hist["audit:sites"] = len(audit_keyed)
+    hist["audit:new"] = len(audit_new)
+
     # ---- verdicts
     seen, n_rep = set(), 0
     site_hist = Counter(f"{k}:{p.get('site', p.get('family', ''))}" for k, p in failures)
@@ -968,10 +1027,26 @@ def _check(run, wd, mods, farm, t_start):
         n_rep += 1
         has_input = not kind.endswith("-failed")
         run.violation({"kind": kind, **payload}, has_input)
+    for site in audit_unexhibited[:6]:
+        run.violation({"kind": "unlisted-set-order-site", **site,
+                       "exhibited_at_format_code": [p.get("source") for k, p in failures if p.get("site") == "format_code"][:2],
+                       "explanation": "pyrefact consumes a hash-ordered collection in an order-sensitive way at a place that is "
+                                      "not on the justified allow-list corpus/c06/set_order_sites.json (the result of "
+                                      "max/min/sorted with a key, next(iter()), pop(), or an iteration feeding yields can follow "
+                                      "the iteration order of a set: PYTHONHASHSEED for str, heap layout for nodes); the tie "
+                                      "family found no input at this rule that shows it"}, False)
+    for e in audit_errors[:3]:
+        run.violation({"kind": "audit-could-not-parse", **e,
+                       "explanation": "a pyrefact module could not be parsed by the static audit (fail-closed)"}, False)
     if not failures:
         for kind, d in disagreements[:5]:
             if isinstance(d, dict):
                 run.violation(dict(d, kernel=kind, explanation="correspondence could not be evaluated"), False)
+            elif kind == "pick":
+                run.violation({"kind": "correspondence", "kernel": "PickModel.argmax/argmin vs CPython max/min with key",
+                               "case": d, "cpython": [max(d, key=lambda p: p[1]) if d else None,
+                                                       min(d, key=lambda p: p[1]) if d else None],
+                               "explanation": "the list model of max/min with a key disagrees with CPython"}, False)
             elif kind == "sched":
                 c, flat, cand = d
                 run.violation({"kind": "correspondence", "kernel": "K1 SchedModel.schedule (yield permutations)",
@@ -993,7 +1068,7 @@ def _check(run, wd, mods, farm, t_start):
 
     timing["total_s"] = round(time.time() - t_start, 1)
     run.coverage.update(
-        evaluations=len(items) + len(fitems) + n_code + n_perturb + n_tree_cmp + len(pkg_futs),
+        evaluations=len(items) + len(fitems) + len(pcases) + n_code + n_perturb + n_tree_cmp + len(pkg_futs),
         distinct_nontrivial=len(sched_distinct) + len(files_distinct),
         rule=("scheduler: every yield order of base groups of 2-4 default-numbered rewrites over 8 line-aligned ranges "
               "(incl. insertions) x 2 texts, framed by a group before and after, every 5th with an ignored line -- all "
@@ -1005,7 +1080,7 @@ def _check(run, wd, mods, farm, t_start):
         samples=[{"scheduler": scases[len(scases) // 2][2]["groups"] if scases else None},
                  {"format_files": fcases[len(fcases) // 2]}, {"generated_module": gen[-1][:300]}],
         exhaustive=False, scheduler_cases=len(items), scheduler_base_groups=len(by_base),
-        conflict_free_groups=n_free, conflicting_groups=n_conf, format_files_cases=len(fitems),
+        conflict_free_groups=n_free, conflicting_groups=n_conf, format_files_cases=len(fitems), pick_cases=len(pcases),
         sweep={"hashseeds": seeds, "hashseeds_rules_only": rule_seeds, "suspicious_ops_rerun": len(suspicious),
                "format_code_inputs": len(fmt_inputs), "rule_inputs": len(rules),
                "generated_modules": len(gen), "comparisons": n_code, "perturbation_calls": n_perturb,
@@ -1014,6 +1089,11 @@ def _check(run, wd, mods, farm, t_start):
         corpus_size=len(pool), corpus_harvest=hstats, histogram=dict(hist), timing=timing,
         failure_sites=dict(site_hist), correspondence_disagreements=len(disagreements),
         yield_order_sensitive_rules=dict(order_sensitive), yield_order_unstable_rules=dict(unstable_order),
+        tie_family={"modules": len(ties), "rule_calls": len(c06_ties.rule_ties()), "hashseeds": sorted(set(seeds) | set(rule_seeds)),
+                    "kinds": dict(Counter(l.split(":")[0] for l, _ in c06_ties.ties()))},
+        set_order_audit={"sites": len(audit_keyed), "by_kind": dict(Counter(v["kind"] for v in audit_keyed.values())),
+                         "not_on_allow_list": [v["key"] for v in audit_new], "stale_allow_list_entries": audit_stale,
+                         "allow_list": str(ALLOW_LIST.relative_to(common.VERIF))},
         property_oracle_failures=len(failures),
         unmodelled=["real pool interleavings and address-space layout (direct runs only)",
                     "explicit transaction numbers in T06.1 (its hypothesis is one transaction per yield)",
@@ -1028,7 +1108,11 @@ def _check(run, wd, mods, farm, t_start):
         "rewrites in the permuted group; with a conflict R06.2 shows the first yield wins",
         "T06.3 assumes formatting a file does not read other files of the batch (T06.4); batches with intra-batch "
         "imports violate it (known finding F06-3)",
-        "determinism over ALL hash seeds and layouts is sampled (seeds listed under coverage.sweep), not proved"]
+        "determinism over ALL hash seeds and layouts is sampled (seeds listed under coverage.sweep), not proved",
+        "the static audit recognises sets syntactically (displays, comprehensions, set()/frozenset(), set operators and "
+        "methods, annotated parameters, locals assigned such, defaultdict(set) values, pyrefact functions returning such); a set "
+        "behind an unannotated parameter is seen only by the pickers that are always listed (max/min with key, next(iter), "
+        "most_common)"]
 
 
 def _encodable(r) -> bool:
@@ -1126,6 +1210,13 @@ def replay(path: str) -> int:
         flat, out = c10.run_impl(mods, c)[:2]
         print("impl schedule:", flat)
         print("model        :", c10.model_outputs(wd, c, flat, c10.py_splice(c["source"], flat)))
+    elif kind in ("unlisted-set-order-site", "audit-could-not-parse"):
+        new, stale, errors, keyed, _ = c06_audit.compare(Path(common.REPO) / "pyrefact", ALLOW_LIST)
+        print(f"{len(keyed)} order-sensitive consumers of set expressions in {common.REPO}/pyrefact; not on the allow-list:")
+        for sx in new:
+            print(f"  {sx['module']}.py:{sx['line']}  {sx['key']}  (iterable: {sx['iterable_type']})")
+        for e in errors:
+            print("  parse error:", e)
     elif kind == "proof":
         print(common.check_props(PID, wd))
     else:
